@@ -345,12 +345,16 @@ bool qtreetbl_putobj(qtreetbl_t *tbl, const void *name, size_t namesize,
     errno = 0;
     qtreetbl_obj_t *root = put_obj(tbl, tbl->root, name, namesize, data,
                                    datasize);
+    if (root != NULL) {
+        // 4-nodes may have been split on the way down even if the new node
+        // could not be created, so the returned root is always the valid one.
+        root->red = false;
+        tbl->root = root;
+    }
     if (root == NULL || errno == ENOMEM) {
         qtreetbl_unlock(tbl);
         return false;
     }
-    root->red = false;
-    tbl->root = root;
     qtreetbl_unlock(tbl);
 
     return true;
@@ -1173,7 +1177,8 @@ static qtreetbl_obj_t *new_obj(bool red, const void *name, size_t namesize,
     void *copyname = qmemdup(name, namesize);
     void *copydata = qmemdup(data, datasize);
 
-    if (obj == NULL || copyname == NULL) {
+    if (obj == NULL || copyname == NULL
+        || (data != NULL && datasize > 0 && copydata == NULL)) {
         errno = ENOMEM;
         free(obj);
         free(copyname);
@@ -1194,8 +1199,11 @@ static qtreetbl_obj_t *put_obj(qtreetbl_t *tbl, qtreetbl_obj_t *obj,
                                const void *name, size_t namesize,
                                const void *data, size_t datasize) {
     if (obj == NULL) {
-        tbl->num++;
-        return new_obj(true, name, namesize, data, datasize);
+        qtreetbl_obj_t *newobj = new_obj(true, name, namesize, data, datasize);
+        if (newobj != NULL) {
+            tbl->num++;
+        }
+        return newobj;
     }
 
 #ifdef LLRB234
